@@ -19,30 +19,30 @@ struct Traits;
 template<class M>
 struct Traits<lg::guarded<Cell, M>> {
     static constexpr int kind = 0;
-    static lg::guarded<Cell, M>* make(vrt::Exec& x, bool) { return x.make<lg::guarded<Cell, M>>("w", 0L); }
+    static lg::guarded<Cell, M>* make(vrt::Exec& x, bool) { return x.make<lg::guarded<Cell, M>>("w", Cell(0L, Cell::Temp{})); }
 };
 template<class M>
 struct Traits<lg::guarded_opt<Cell, M>> {
     static constexpr int kind = 1;
-    static lg::guarded_opt<Cell, M>* make(vrt::Exec& x, bool en) { return x.make<lg::guarded_opt<Cell, M>>("w", en, 0L); }
+    static lg::guarded_opt<Cell, M>* make(vrt::Exec& x, bool en) { return x.make<lg::guarded_opt<Cell, M>>("w", en, Cell(0L, Cell::Temp{})); }
 };
 template<class M>
 struct Traits<lg::shared_guarded<Cell, M>> {
     static constexpr int kind = 2;
-    static lg::shared_guarded<Cell, M>* make(vrt::Exec& x, bool) { return x.make<lg::shared_guarded<Cell, M>>("w", 0L); }
+    static lg::shared_guarded<Cell, M>* make(vrt::Exec& x, bool) { return x.make<lg::shared_guarded<Cell, M>>("w", Cell(0L, Cell::Temp{})); }
 };
 template<class M>
 struct Traits<lg::shared_guarded_opt<Cell, M>> {
     static constexpr int kind = 3;
     static lg::shared_guarded_opt<Cell, M>* make(vrt::Exec& x, bool en)
     {
-        return x.make<lg::shared_guarded_opt<Cell, M>>("w", en, 0L);
+        return x.make<lg::shared_guarded_opt<Cell, M>>("w", en, Cell(0L, Cell::Temp{}));
     }
 };
 template<class M>
 struct Traits<lg::ordered_guarded<Cell, M>> {
     static constexpr int kind = 4;
-    static lg::ordered_guarded<Cell, M>* make(vrt::Exec& x, bool) { return x.make<lg::ordered_guarded<Cell, M>>("w", 0L); }
+    static lg::ordered_guarded<Cell, M>* make(vrt::Exec& x, bool) { return x.make<lg::ordered_guarded<Cell, M>>("w", Cell(0L, Cell::Temp{})); }
 };
 
 template<class M>
